@@ -171,7 +171,7 @@ pub fn prune_via_stream(dir: &Path, events: &[Event], flushed: usize, live_jobs:
     let _ = std::fs::remove_file(&path);
     let writer = JournalWriter::create_or_append(&path, None).map_err(|e| e.to_string())?;
     let (tx, end) = start_event_streaming(writer, &path, std::time::Duration::from_secs(36_000));
-    let wait = |rx: tokio::sync::oneshot::Receiver<()>| -> Result<(), String> { futures::executor::block_on(rx).map_err(|_| "journal thread ended".to_string()) };
+    let wait = |rx: tokio::sync::oneshot::Receiver<()>| -> Result<(), String> { futures::executor::block_on(tokio::task::unconstrained(rx)).map_err(|_| "journal thread ended".to_string()) };
     let mut run = || -> Result<(), String> {
         for e in &events[..flushed.min(events.len())] {
             tx.send(EventStreamMessage::Event(e.clone())).map_err(|_| "journal thread ended".to_string())?;
@@ -189,9 +189,227 @@ pub fn prune_via_stream(dir: &Path, events: &[Event], flushed: usize, live_jobs:
     };
     let r = run();
     drop(tx);
-    futures::executor::block_on(end);
+    futures::executor::block_on(tokio::task::unconstrained(end));
     r?;
     read_journal(&path)
+}
+
+/// The job an event belongs to: > 0 a single job, 0 none, -1 several / unknown (batched records).
+fn job_of(e: &Event) -> i64 {
+    let v = event_json(&e.payload);
+    if let Some(j) = v.get("j").and_then(|x| x.as_i64()) {
+        j
+    } else if let Some(t) = v.get("t").and_then(|x| x.as_i64()) {
+        t / 1000
+    } else if v.get("ts").is_some() || v.get("ids").is_some() || v.get("tasks").is_some() {
+        -1
+    } else {
+        0
+    }
+}
+
+fn ident(e: &Event) -> String {
+    // (the projection only: the time stamp does not survive the round trip through the file bit by bit)
+    event_json(&e.payload).to_string()
+}
+
+/// the records of a journal file as indices into the script (greedy, in order); -1 = a record that is not in the script
+/// verbatim (re-written by a prune). -> (ids, torn tail present)
+fn read_ids(path: &Path, script: &[Event]) -> (Vec<i64>, bool) {
+    let mut ids = Vec::new();
+    let mut torn = false;
+    let Ok(mut reader) = JournalReader::open(path) else {
+        return (ids, false);
+    };
+    let keys: Vec<String> = script.iter().map(ident).collect();
+    let mut from = 0usize;
+    for e in &mut reader {
+        match e {
+            Ok(e) => {
+                let k = ident(&e);
+                match keys[from..].iter().position(|x| *x == k) {
+                    Some(p) => {
+                        ids.push((from + p) as i64);
+                        from += p + 1;
+                    }
+                    None => ids.push(-1),
+                }
+            }
+            Err(_) => {
+                torn = true;
+                break;
+            }
+        }
+    }
+    // (a partially written last record ends the iteration without an error)
+    torn = torn || reader.contains_partial_data();
+    (ids, torn)
+}
+
+/// Drives the REAL journal thread (`start_event_streaming` / `streaming_process`) with the events of a real run and a seeded
+/// mix of flush / replay / prune requests, snapshots of the file taken at arbitrary moments (= what a crash at that moment
+/// leaves behind) and restarts from such a snapshot; every answer and every snapshot is logged for spec/JournalThreadTrace.tla.
+pub fn thread_script(run: u64, dir: &Path, events: &[Event]) -> Vec<Value> {
+    use hyperqueue::server::event::journal::{EventStreamMessage, start_event_streaming};
+    // NOTE: this runs inside a task of the simulation's tokio runtime; waiting on tokio channels with a nested executor uses up
+    // the cooperative budget of that task (after 128 operations every poll answers "pending" and defers the wake-up to a
+    // scheduler that never runs) - hence `unconstrained`.
+    let mut rng = crate::walk::Rng::new(run.wrapping_mul(0x9E37_79B9).wrapping_add(17));
+    let path = dir.join("thread.journal");
+    let snap = dir.join("thread.snapshot");
+    let _ = std::fs::remove_file(&path);
+    let mut steps: Vec<Value> = vec![json!({"a": "Reset", "run": run})];
+    let Ok(writer) = JournalWriter::create_or_append(&path, None) else {
+        return steps;
+    };
+    let (mut tx, mut end) = {
+        let (tx, end) = start_event_streaming(writer, &path, std::time::Duration::from_secs(36_000));
+        (tx, Box::pin(end) as std::pin::Pin<Box<dyn std::future::Future<Output = ()>>>)
+    };
+    let wait = |rx: tokio::sync::oneshot::Receiver<()>| -> bool { futures::executor::block_on(tokio::task::unconstrained(rx)).is_ok() };
+    let mut jobs: Vec<u32> = Vec::new();
+    let mut workers: Vec<u32> = Vec::new();
+    // the first event that no answered request covers yet, and the length of the file at the last answer
+    let mut pending_from = 0usize;
+    let mut acked_len = std::fs::metadata(&path).map(|m| m.len()).unwrap_or(0);
+    let n = events.len().min(60);
+    for (i, e) in events[..n].iter().enumerate() {
+        let j = job_of(e);
+        if j > 0 && !jobs.contains(&(j as u32)) {
+            jobs.push(j as u32);
+        }
+        if let Some(w) = event_json(&e.payload).get("w").and_then(|x| x.as_u64()) {
+            if !workers.contains(&(w as u32)) {
+                workers.push(w as u32);
+            }
+        }
+        if tx.send(EventStreamMessage::Event(e.clone())).is_err() {
+            steps.push(json!({"a": "ThreadDied", "at": i}));
+            return steps;
+        }
+        steps.push(json!({"a": "E", "id": i, "job": j}));
+        if std::env::var("HQV_DEBUG").is_ok() {
+            eprintln!("thread_script: {}", steps.iter().rev().take(3).map(|s| s.to_string()).collect::<Vec<_>>().join(" <- "));
+        }
+        match rng.below(14) {
+            0 | 1 => {
+                let (cb, rx) = tokio::sync::oneshot::channel();
+                let _ = tx.send(EventStreamMessage::FlushJournal(cb));
+                let ok = wait(rx);
+                pending_from = i + 1;
+                acked_len = std::fs::metadata(&path).map(|m| m.len()).unwrap_or(0);
+                let (ids, torn) = read_ids(&path, events);
+                steps.push(json!({"a": "F", "ok": ok, "file": ids, "torn": torn}));
+            }
+            2 => {
+                let (rtx, mut rrx) = tokio::sync::mpsc::unbounded_channel();
+                let _ = tx.send(EventStreamMessage::ReplayJournal(rtx));
+                let mut got: Vec<Event> = Vec::new();
+                while let Some(ev) = futures::executor::block_on(tokio::task::unconstrained(rrx.recv())) {
+                    got.push(ev);
+                }
+                let keys: Vec<String> = events.iter().map(ident).collect();
+                let mut from = 0usize;
+                let mut ids: Vec<i64> = Vec::new();
+                for g in &got {
+                    let k = ident(g);
+                    match keys[from..].iter().position(|x| *x == k) {
+                        Some(p) => {
+                            ids.push((from + p) as i64);
+                            from += p + 1;
+                        }
+                        None => ids.push(-1),
+                    }
+                }
+                pending_from = i + 1;
+                acked_len = std::fs::metadata(&path).map(|m| m.len()).unwrap_or(0);
+                steps.push(json!({"a": "R", "reply": ids}));
+            }
+            3 => {
+                // live = every job that still has records to come (a prune never declares such a job dead) + some of the others
+                let future: Vec<i64> = events[i + 1..n].iter().map(job_of).collect();
+                let live: Vec<u32> = if future.iter().any(|j| *j < 0) {
+                    jobs.clone()
+                } else {
+                    jobs.iter().copied().filter(|j| future.contains(&(*j as i64)) || rng.below(2) == 0).collect()
+                };
+                let lj: Set<JobId> = live.iter().map(|j| JobId::new(*j)).collect();
+                let lw: Set<WorkerId> = workers.iter().map(|w| WorkerId::new(*w)).collect();
+                let (cb, rx) = tokio::sync::oneshot::channel();
+                let _ = tx.send(EventStreamMessage::PruneJournal { callback: cb, live_jobs: lj, live_workers: lw });
+                let ok = wait(rx);
+                pending_from = i + 1;
+                acked_len = std::fs::metadata(&path).map(|m| m.len()).unwrap_or(0);
+                let (ids, torn) = read_ids(&path, events);
+                steps.push(json!({"a": "P", "ok": ok, "live": live, "file": ids, "torn": torn}));
+            }
+            4 | 5 => {
+                // what a crash at this very moment would leave behind
+                let _ = std::fs::copy(&path, &snap);
+                let restart = rng.below(2) == 0;
+                if restart && rng.below(2) == 0 && pending_from <= i {
+                    // the buffered writer was in the middle of writing through what it holds: some bytes of the records that are
+                    // not acknowledged yet reached the file, the last record possibly torn (only if nothing of them is there yet)
+                    let len = std::fs::metadata(&snap).map(|m| m.len()).unwrap_or(0);
+                    if len == acked_len {
+                        let tmpj = dir.join("thread.pending");
+                        let sizes = write_journal(&tmpj, &events[pending_from..=i]);
+                        if let Ok(bytes) = std::fs::read(&tmpj) {
+                            let body = &bytes[sizes[0] as usize..];
+                            if !body.is_empty() {
+                                let x = 1 + rng.below(body.len());
+                                if let Ok(mut f) = std::fs::OpenOptions::new().append(true).open(&snap) {
+                                    let _ = f.write_all(&body[..x]);
+                                }
+                            }
+                        }
+                    }
+                }
+                let (ids, torn) = read_ids(&snap, events);
+                steps.push(json!({"a": "Snap", "file": ids, "torn": torn}));
+                if restart {
+                    // ... and the server is started again with it: the old thread is gone, the torn tail is cut on open
+                    drop(tx);
+                    futures::executor::block_on(tokio::task::unconstrained(end));
+                    let _ = std::fs::copy(&snap, &path);
+                    // as start_server does: the restorer reads the journal and tells where a torn tail begins
+                    let r = restore_file(&path);
+                    let trunc = if r["ok"].as_bool() == Some(true) {
+                        r["trunc"].as_i64().filter(|t| *t >= 0).map(|t| t as u64)
+                    } else {
+                        // the script goes on with the events of the original run also after a restart that lost some of them, so
+                        // the CONTENT may not restore (e.g. a task event whose submit was lost); whether journals the server
+                        // really writes restore is what the cut checks decide. Here only the place of the torn tail matters,
+                        // found the way the restorer finds it: the reader's position when it meets partial data.
+                        match JournalReader::open(&path) {
+                            Ok(mut reader) => {
+                                for _ in &mut reader {}
+                                if reader.contains_partial_data() { Some(reader.position()) } else { None }
+                            }
+                            Err(_) => None,
+                        }
+                    };
+                    let Ok(writer) = JournalWriter::create_or_append(&path, trunc) else {
+                        steps.push(json!({"a": "Restart", "ok": false, "file": [], "torn": false}));
+                        return steps;
+                    };
+                    let (t2, e2) = start_event_streaming(writer, &path, std::time::Duration::from_secs(36_000));
+                    tx = t2;
+                    end = Box::pin(e2);
+                    pending_from = i + 1;
+                    acked_len = std::fs::metadata(&path).map(|m| m.len()).unwrap_or(0);
+                    let (ids, torn) = read_ids(&path, events);
+                    steps.push(json!({"a": "Restart", "ok": true, "file": ids, "torn": torn}));
+                }
+            }
+            _ => {}
+        }
+    }
+    drop(tx);
+    futures::executor::block_on(tokio::task::unconstrained(end));
+    let (ids, torn) = read_ids(&path, events);
+    steps.push(json!({"a": "End", "file": ids, "torn": torn}));
+    steps
 }
 
 fn records(events: &[Event]) -> Vec<Value> {
@@ -331,7 +549,8 @@ pub fn analyse_run(run: u64, c: &Cluster, dir: &Path, torn_offsets: usize, max_c
                            "before_journal": records(&p.before), "after_journal": records(&p.after),
                            "before": before, "after": after, "reprune_same": reprune_same, "append_ok": append_ok}));
     }
-    json!({"run": run, "profile": c.profile.name, "journal": records(journal), "n": n, "cuts": cuts, "torn": torn, "prunes": prunes})
+    let thread = thread_script(run, dir, journal);
+    json!({"run": run, "profile": c.profile.name, "journal": records(journal), "n": n, "cuts": cuts, "torn": torn, "prunes": prunes, "thread": thread})
 }
 
 pub fn main(args: &[String]) -> i32 {
